@@ -41,6 +41,7 @@ type dirRec struct {
 	firstRegion string
 	fired       int
 	done        bool
+	skip        int // elements still to be swallowed by a garble operator
 }
 
 func (r *dirRec) add(n int, region string, plain int) {
@@ -178,6 +179,10 @@ func forward(s *simrt.Sim, src, dst *simnet.TCPConn, r *dirRec, ops []*op) {
 			return
 		}
 		b := append([]byte(nil), in[e.start:e.end]...)
+		if r.skip > 0 {
+			r.skip--
+			return
+		}
 		if held != nil {
 			fire(heldOp, r.elems[idx-1])
 			emit(b)
@@ -211,6 +216,15 @@ func forward(s *simrt.Sim, src, dst *simnet.TCPConn, r *dirRec, ops []*op) {
 		case "swap":
 			o.used = true
 			held, heldOp = b, o
+		case "garble":
+			// whole sealed units replaced by the same number of random 18-byte blocks (the size of a
+			// sealed length): the stream stays unit-aligned behind them
+			fire(o, e)
+			k := 1 + o.bit%4
+			g := make([]byte, 18*k)
+			s.RandBytes(g)
+			emit(g)
+			r.skip = k - 1 // the following k-1 elements are swallowed
 		case "replay":
 			if o.back <= 0 || idx-o.back < 0 {
 				emit(b)
